@@ -183,7 +183,7 @@ func (*parser).parseIntLit [C19]
 // unescaping a text literal never reads outside the text and always terminates
 func (*parser).parseString [C19, C03]
   safe
-  requires p != nil && p.module != nil && 1 <= p.cur && p.cur <= len(p.tokens)
+  requires wfCur(p) && p.module != nil && 1 <= p.cur
   loop 0 invariant 0 <= i && 0 <= w
   loop 0 decreases len(str) - i
 
